@@ -385,24 +385,26 @@ structure Decoded where
 
 def le32 (bs : List Nat) : Nat := leVal (bs.take 4)
 
-def decodeContig (k mm : Nat) (gs : Array GroupD) (sample : List Nat) (a : Acc)
+/-- one descriptor of a contig: fetch, check the lengths, undo the orientation flag -/
+def contigStep (k mm : Nat) (gds : Array GroupD) (whatC : String)
+    (st : Acc × Array Ragc.Range.Seg) (di : Ragc.Details.Seg × Nat) : Acc × Array Ragc.Range.Seg :=
+  let (a, out) := st
+  let (d, i) := di
+  match getSegment mm gds d with
+  | .error e => (a.add "addressing" s!"{e} ({whatC} segment {i})", out.push ⟨d.rawLen, []⟩)
+  | .ok s =>
+    let a := if s.length = d.rawLen then a
+      else a.add "raw-length" s!"{whatC} segment {i}: descriptor {d.rawLen} decoded {s.length}"
+    let a := if i > 0 ∧ s.length < k then
+        a.add "segment-shorter-than-k" s!"{whatC} segment {i}: {s.length} < {k}" else a
+    let s := if d.rev then Ragc.Range.reverseComplementSegment s else s
+    (a, out.push ⟨d.rawLen, s⟩)
+
+def decodeContig (k mm : Nat) (gds : Array GroupD) (sample : List Nat) (a : Acc)
     (nd : List Nat × List Ragc.Details.Seg) : Acc × DContig :=
   let (name, descs) := nd
   let whatC := s!"{showName sample} {showName name}"
-  let (a, segs) := (List.zipIdx descs).foldl
-    (fun (st : Acc × Array Ragc.Range.Seg) (di : Ragc.Details.Seg × Nat) =>
-      let (a, out) := st
-      let (d, i) := di
-      match getSegment mm gs d with
-      | .error e => (a.add "addressing" s!"{e} ({whatC} segment {i})", out.push ⟨d.rawLen, []⟩)
-      | .ok s =>
-        let a := if s.length = d.rawLen then a
-          else a.add "raw-length" s!"{whatC} segment {i}: descriptor {d.rawLen} decoded {s.length}"
-        let a := if i > 0 ∧ s.length < k then
-            a.add "segment-shorter-than-k" s!"{whatC} segment {i}: {s.length} < {k}" else a
-        let s := if d.rev then Ragc.Range.reverseComplementSegment s else s
-        (a, out.push ⟨d.rawLen, s⟩))
-    (a, #[])
+  let (a, segs) := (List.zipIdx descs).foldl (contigStep k mm gds whatC) (a, #[])
   match Ragc.Range.reconstruct k segs.toList with
   | some bases => (a, ⟨name, descs, bases⟩)
   | none => (a, ⟨name, descs, []⟩)
@@ -543,14 +545,15 @@ def checkUnused (gds : Array GroupD) (usedIds : List Nat) (a : Acc) : Acc :=
     if (G.nRefParts = 0 ∧ G.packs.size = 0) ∨ usedIds.contains G.id then a
     else a.add "unused-group" (gname G.id)) a
 
+def sampleStep (k mm : Nat) (gds : Array GroupD) (sample : List Nat) (st : Acc × Array DContig)
+    (nd : List Nat × List Ragc.Details.Seg) : Acc × Array DContig :=
+  let (a, c) := decodeContig k mm gds sample st.1 nd
+  (a, st.2.push c)
+
 def decodeSample (k mm : Nat) (gds : Array GroupD) (st : Acc × Array DSample)
     (nt : List Nat × ContigTable) : Acc × Array DSample :=
   let (a, out) := st
-  let (a, cs) := nt.2.foldl
-    (fun (st : Acc × Array DContig) nd =>
-      let (a, c) := decodeContig k mm gds nt.1 st.1 nd
-      (a, st.2.push c))
-    (a, #[])
+  let (a, cs) := nt.2.foldl (sampleStep k mm gds nt.1) (a, #[])
   (a, out.push ⟨nt.1, cs.toList⟩)
 
 def decodeSamples (k mm : Nat) (gds : Array GroupD) (sampleNames : List (List Nat))
